@@ -89,6 +89,9 @@ pub enum Step {
     },
     HoldRef(usize),
     DropHeld(usize),
+    /// tell a message to the hook's own actor through the reference the hook was given (`&ActorRef<Self>`, or the upgraded
+    /// `&ActorWeak<Self>` in on_run/on_stop), with a short bound so that a full mailbox cannot wedge the hook
+    TellSelf(Body),
     /// keep a clone of the hook's own `&ActorRef<Self>` in the actor's state (the actor then references itself)
     HoldSelf,
     /// upgrade the hook's own weak/strong handle and report whether it worked
